@@ -251,6 +251,29 @@ package phase0
 //@   assigns anything
 //@   ensures proof: err == nil && !ignoreSignatureAndProof ==> !st_depidx_err(state) && !st_eth1_err(state) && mfold(deposit_data_root(old(dep.Data)), old(seq(dep.Proof)), st_depidx(state), common.DEPOSIT_CONTRACT_TREE_DEPTH + 1) == st_eth1(state).DepositRoot
 
+// ---------------------------------------------------------------- registry updates: the exit queue handed to the ejections (C02)
+// process_registry_updates ejects through initiate_validator_exit: the first ejection's exit epoch is
+// max(exit epochs that are set, activation-exit epoch of the current epoch), one later when that epoch
+// already holds churn-limit exits; ComputeRegistryProcessData computes that epoch, the churn counted at it
+// and the churn limit (over the active validators of the current epoch) from the flat snapshot.
+//@ sort FlatsT = []common.FlatValidator
+//@ defrec fexq_max(fl FlatsT, i int, base int) int = ite(i <= 0, base, ite(fl[i - 1].ExitEpoch != common.FAR_FUTURE_EPOCH && fl[i - 1].ExitEpoch > fexq_max(fl, i - 1, base), fl[i - 1].ExitEpoch, fexq_max(fl, i - 1, base)))
+//@ defrec fexq_count(fl FlatsT, i int, e int) int = ite(i <= 0, 0, fexq_count(fl, i - 1, e) + ite(fl[i - 1].ExitEpoch == e, 1, 0))
+//@ defrec fact_count(fl FlatsT, ep int, i int) int = ite(i <= 0, 0, fact_count(fl, ep, i - 1) + ite(fl[i - 1].ActivationEpoch <= ep && ep < fl[i - 1].ExitEpoch, 1, 0))
+//@ lemma fexq_count_zero [C02, induct=i, manual]: forall i int, fl FlatsT, e int :: {fexq_count(fl, i, e)} (forall k :: {fl[k]} 0 <= k && k < i ==> fl[k].ExitEpoch != e) ==> fexq_count(fl, i, e) == 0
+//@ func ComputeRegistryProcessData(spec, flats, currentEpoch) (out, err)
+//@   property C02
+//@   use fexq_count_zero
+//@   requires spec != nil && spec.CHURN_LIMIT_QUOTIENT != 0
+//@   ensures limit: err == nil ==> out != nil && out.ChurnLimit == max(spec.MIN_PER_EPOCH_CHURN_LIMIT, fact_count(flats, currentEpoch, len(flats)) / spec.CHURN_LIMIT_QUOTIENT)
+//@   ensures queue: err == nil && currentEpoch + 1 + spec.MAX_SEED_LOOKAHEAD < 4611686018427387904 ==> (let m := fexq_max(flats, len(flats), currentEpoch + 1 + spec.MAX_SEED_LOOKAHEAD) in out.ExitQueueEnd == ite(fexq_count(flats, len(flats), m) >= out.ChurnLimit, m + 1, m) && out.ExitQueueEndChurn == ite(fexq_count(flats, len(flats), m) >= out.ChurnLimit, 0, fexq_count(flats, len(flats), m)))
+//@   loop 1
+//@     invariant 0 <= i && i <= count && count == len(flats) && activeCount == fact_count(flats, currentEpoch, i) && activeCount <= i
+//@   loop 2
+//@     invariant 0 <= i && i <= count && count == len(flats) && activeCount == fact_count(flats, currentEpoch, len(flats))
+//@     invariant currentEpoch + 1 + spec.MAX_SEED_LOOKAHEAD < 4611686018427387904 ==> exitQueueEnd == fexq_max(flats, i, currentEpoch + 1 + spec.MAX_SEED_LOOKAHEAD) && exitQueueEnd != common.FAR_FUTURE_EPOCH && exitQueueEndChurn == fexq_count(flats, i, exitQueueEnd) && exitQueueEndChurn <= i
+//@     invariant forall k :: {flats[k]} 0 <= k && k < i && flats[k].ExitEpoch != common.FAR_FUTURE_EPOCH ==> flats[k].ExitEpoch <= exitQueueEnd
+
 // BEGIN C18 generated (tools/gen_c18.py in /verif)
 // cancelled: a context cancelled before the call makes it fail; surfaced: a cancellation observed by a poll
 // during the call makes it fail; polled: success after a poll means the context was not cancelled at entry.
